@@ -1290,6 +1290,11 @@ class Template:
                 lvl = v.args[1].value
             return 3 * lvl
         if isinstance(v, ast.Call) and isinstance(v.func, ast.Attribute) and v.func.attr == 'generate_unrolled_code_for_descriptor_sync':
+            # the literal prefix of the generated sync code: statements of the driver (3 columns),
+            # unless the generator emits whole functions (text that starts with ``def``)
+            gen = self.func.cls.methods.get(v.func.attr) if self.func.cls is not None else None
+            if gen is not None and any(isinstance(c, ast.Constant) and isinstance(c.value, str) and c.value.lstrip(' ').startswith('def ') for c in ast.walk(gen.node)):
+                return None
             return 3
         return None
 
